@@ -793,3 +793,10 @@ PROPERTIES["C20"]["mirsym"].append(
 PROPERTIES["C20"]["manifest"]["text"] += " Second kernel, receive side: every message the io_uring handler's engine decodes reaches the socket's receive queue exactly once and in order - also when the queue is full or not attached yet (the handler stashes instead of dropping) - and the handler asks the worker to stop reading from the peer for as long as anything is stashed; this is the delivery behaviour of the default backend's awaited hand-over."
 PROPERTIES["C20"]["manifest"]["note"] = PROPERTIES["C20"]["manifest"]["note"].replace("NOT claimed: everything else in the property - delivered messages and order, handshake outcomes,", "NOT claimed: the bytes-to-engine path (ring buffers, multishot reads), handshake outcomes,")
 PROPERTIES["C20"]["outside"] = "ring buffers and reads, handshake outcomes, buffer accounting, fds, heartbeat clock on the io_uring backend"
+PROPERTIES["C20"]["mirsym"].append(
+    M("c20_uring_egress_order", "d_c20", "uring_egress_order",
+      {"quick": "io_uring backend: ZmtpUringHandler::{prepare_sqes, handle_internal_sqe_completion} with a real engine brought to the Data phase through a NULL handshake and the real framer (frame_batch_vectored); all histories of 5 steps from {the socket queues a one-frame message for the connection, the worker asks for SQEs, the outstanding write completes}, then everything is flushed",
+       "thorough": "histories of 7 steps"},
+      params={"quick": {"ops": 5}, "thorough": {"ops": 7}}, budget={"quick": 600, "thorough": 1800},
+      required_covers=["c20.egress.coalesced", "c20.egress.all-written"], features="uring"))
+PROPERTIES["C20"]["manifest"]["text"] += " Third kernel, send side: the handler never has more than one write outstanding, the bytes of its write requests together are the frames of the queued messages in order, each once, and each request's batch_count is the number of messages it carries."
